@@ -505,4 +505,18 @@ theorem journal_clear_roundtrip (gen total slot : Nat) (tail : Bytes) (hg : 0 < 
   · exact journal_slot_roundtrip gen JOURNAL_CLEAR total slot [] tail
       ⟨hg, Or.inl ⟨rfl, rfl⟩, by decide, by simp, by simp, by decide⟩
 
+/-- **Which journal slot is in force**: next to a valid slot of generation `g`, a valid image of
+a greater-or-equal generation in the later slot wins; bytes that `decode_slot` rejects (a torn
+write that fails its checksum) or an all-zero slot leave the state of the valid slot in force.
+This is the byte-level half of the crash argument of C03/C04: an interrupted journal write
+yields the old or the new journal state, never a third one. -/
+theorem journal_slot_selection (s0 s1 : Bytes) (total : Nat) (A B : JournalState)
+    (h0 : s0.length = JOURNAL_SLOT_SIZE) (h1 : s1.length = JOURNAL_SLOT_SIZE)
+    (hz0 : allZero s0 = false) (hA : decodeSlot s0 total 0 = .ok A) :
+    (allZero s1 = false → decodeSlot s1 total 1 = .ok B → B.generation ≥ A.generation →
+        decodeJournal (s0 ++ s1) total = .ok B) ∧
+    (allZero s1 = false → decodeSlot s1 total 1 = .invalid → decodeJournal (s0 ++ s1) total = .ok A) ∧
+    (allZero s1 = true → decodeJournal (s0 ++ s1) total = .ok A) :=
+  decodeJournal_two_slots s0 s1 total A B h0 h1 hz0 hA
+
 end Feox.C10
